@@ -48,15 +48,17 @@ SDPowerSet::Iterator::Iterator(const SDPowerSet& boolean, const bool isCompleted
   : boolean{ &boolean }, isCompleted{ isCompleted } {}
 
 SDPowerSet::Iterator::reference SDPowerSet::Iterator::operator*() const {
+  // Note: element is copied into the iterator, because cache entries do not outlive cache cleanup
   if (boolean->IsCached(counter)) {
-    return boolean->GetCache(counter);
+    current = boolean->GetCache(counter);
   } else {
     auto newData = Factory::EmptySet();
     for (const auto& iter : itemIterators) {
       newData.ModifyB().AddElement(*iter);
     }
-    return boolean->SaveCache(counter, newData);
+    current = boolean->SaveCache(counter, newData);
   }
+  return *current;
 }
 
 bool SDPowerSet::Iterator::operator==(const Iterator& rhs) const noexcept {
@@ -165,16 +167,18 @@ SDDecartian::Iterator::Iterator(const SDDecartian& base, const bool completed)
 }
 
 SDDecartian::Iterator::reference SDDecartian::Iterator::operator*() const {
+  // Note: element is copied into the iterator, because cache entries do not outlive cache cleanup
   if (decartian->IsCached(counter)) {
-    return decartian->GetCache(counter);
+    current = decartian->GetCache(counter);
   } else {
     std::vector<StructuredData> components{};
     components.reserve(size(componentIters));
     for (const auto& compIter : componentIters) {
       components.emplace_back(*compIter);
     }
-    return decartian->SaveCache(counter, Factory::Tuple(components));
+    current = decartian->SaveCache(counter, Factory::Tuple(components));
   }
+  return *current;
 }
 
 bool SDDecartian::Iterator::operator==(const Iterator& rhs) const noexcept {
